@@ -119,6 +119,11 @@ KINDS = [
          "vf_set_i((long long)(%s))", ref=True, lit="11"),
 ]
 KBY = {k.name: k for k in KINDS}
+# used only by the string-overload family (SO)
+KBY["cvp"] = Kind("cvp", "const void *", ("ptr", ("const", ("void",))), "void *", "(const void *)%s",
+                  "vf_to(e, vf_aid(%s));", PDOM, "vf_set_p(%s)", obj="id", lit="nullptr")
+SO_STR = [sval(b""), sval(b"a"), sval(b"gloss")]
+SO_DOM = {"strr": SO_STR, "str": SO_STR, "cs": SO_STR, "b": [False, True], "i": [0, 1, -1], "cvp": PDOM}
 INTERESTING = ["b", "c", "us", "l", "ull", "f", "str", "cAr", "Av", "cs"]
 
 
@@ -151,6 +156,7 @@ static std::string g_trace;
 static int vf_next_id = 0;
 struct VfReg { void *p; void (*desc)(void *, std::string &); };
 static std::vector<VfReg> g_reg;
+static int vf_aid(const void *p);
 static void vf_sep(std::string &e) { if (e[e.size() - 1] != '(') e += ';'; }
 static void vf_ti(std::string &e, long long v) { vf_sep(e); e += std::to_string(v); }
 static void vf_tu(std::string &e, unsigned long long v) { vf_sep(e); e += 'u'; e += std::to_string(v); }
